@@ -101,7 +101,7 @@ def templates(tier, seed):
         # T3 regex columns: prefix-match vs search vs fullmatch semantics differ on these labels
         for pattern in ("a[0-9]", "^a[0-9]$"):
             for arr in (["a1", "a2", "b"], ["a1", "ba3", "b"], ["ba3", "b"], ["b", "a2"]):
-                for strict in (False, True):
+                for strict in (False, True, "filter"):
                     ts.append(Template(f"T3/{pattern}/{''.join(arr)}/strict={strict}/N={N}", t_frame,
                                        (arr, strict, False, N, {"regex": pattern}), twin=None))
     # T4 index schemas (Index on a frame / on a series, two-level MultiIndex), T5 physical dtypes, T6 dataframe-level and multiple checks
@@ -115,7 +115,7 @@ def templates(tier, seed):
             ts.append(Template(f"T4/frame_index/rd={rd}/N={N}", t_index, ("frame_index", N, dict(rd=rd))))
         for iname, sname in (("i", "i"), ("i", "j"), (None, "j"), ("i", None)):
             ts.append(Template(f"T4/frame_index/name={iname}-{sname}/N={N}", t_index, ("frame_index", N, dict(index_name=iname, schema_index_name=sname))))
-        for shape in ("rowwise", "scalar", "element_wise", "two_checks", "groupby", "frame_builtin"):
+        for shape in ("rowwise", "scalar", "element_wise", "two_checks", "groupby", "frame_builtin", "falsy_labels"):
             if shape == "groupby" and N < 1:
                 continue
             for lazy in (False, True):
